@@ -265,7 +265,7 @@ fn dump_state(m: &UserModel) -> String {
         let ws = m.get_model().workbook.worksheet(i).unwrap();
         let mut links: Vec<String> = ws.links.iter().map(|(k, v)| format!("{k:?}{v:?}")).collect(); links.sort();
         let mut hidden = vec![]; for r in 1..=12 { if ws.is_row_hidden(r).unwrap() { hidden.push(r); } } for c in 1..=8 { if ws.is_column_hidden(c).unwrap() { hidden.push(100 + c); } }
-        s += &format!("links {links:?} hidden {hidden:?} merged {:?} cf {}\n", ws.merge_cells, ws.conditional_formatting.len());
+        s += &format!("links {links:?} hidden {hidden:?} merged {:?} cf {:?}\n", ws.merge_cells, ws.conditional_formatting);
     }
     s
 }
@@ -317,6 +317,8 @@ pub fn drive_undoall() -> Vec<String> {
         m.new_defined_name("l", Some(1), "Sheet2!$A$1").unwrap();
         m.set_user_input(0, 6, 3, "=SUM(g)").unwrap();
         m.set_user_input(1, 2, 1, "=l*2").unwrap();
+        let _ = m.add_conditional_formatting(0, "A1:B5", crate::cf_types::CfRuleInput::Formula { formula: "=$A1>2".to_string(), format: crate::types::Dxf::default(), stop_if_true: false });
+        let _ = m.add_conditional_formatting(0, "B2:C4", crate::cf_types::CfRuleInput::CellIs { operator: crate::cf_types::ValueOperator::GreaterThan, formula: "=Sheet2!$A$1".to_string(), formula2: None, format: crate::types::Dxf::default(), stop_if_true: true });
     m
     };
     type Op = Box<dyn Fn(&mut UserModel) -> Result<(), String>>;
@@ -347,6 +349,12 @@ pub fn drive_undoall() -> Vec<String> {
         ("cut paste", Box::new(|m| { m.set_selected_sheet(0)?; m.set_selected_range(1, 1, 2, 2)?; let c = m.copy_to_clipboard()?; m.set_selected_cell(5, 5)?; m.paste_from_clipboard(0, (1, 1, 2, 2), &c.data, true) })),
         ("cut paste link", Box::new(|m| { m.set_selected_sheet(0)?; m.set_selected_range(7, 1, 7, 1)?; let c = m.copy_to_clipboard()?; m.set_selected_cell(11, 3)?; m.paste_from_clipboard(0, (7, 1, 7, 1), &c.data, true) })),
         ("cut paste spill", Box::new(|m| { m.set_selected_sheet(0)?; m.set_selected_range(8, 1, 8, 1)?; let c = m.copy_to_clipboard()?; m.set_selected_cell(10, 5)?; m.paste_from_clipboard(0, (8, 1, 8, 1), &c.data, true) })),
+        ("add cf", Box::new(|m| m.add_conditional_formatting(0, "D1:D9", crate::cf_types::CfRuleInput::Formula { formula: "=D1=1".to_string(), format: crate::types::Dxf::default(), stop_if_true: false }))),
+        ("delete cf", Box::new(|m| m.delete_conditional_formatting(0, 0))),
+        ("update cf", Box::new(|m| m.update_conditional_formatting(0, 1, "A1:A2", crate::cf_types::CfRuleInput::Formula { formula: "=A1<0".to_string(), format: crate::types::Dxf::default(), stop_if_true: true }))),
+        ("raise cf", Box::new(|m| m.raise_conditional_formatting_priority(0, 1))), ("lower cf", Box::new(|m| m.lower_conditional_formatting_priority(0, 0))),
+        ("bad cf range", Box::new(|m| m.add_conditional_formatting(0, "A0:B", crate::cf_types::CfRuleInput::Formula { formula: "=1".to_string(), format: crate::types::Dxf::default(), stop_if_true: false }))),
+        ("bad cf index", Box::new(|m| m.delete_conditional_formatting(0, 9))),
         // calls that must fail, and then change nothing (C04)
         ("bad insert_rows", Box::new(|m| m.insert_rows(0, 1048575, 5))), ("bad insert_columns", Box::new(|m| m.insert_columns(0, 16380, 10))), ("bad delete_rows", Box::new(|m| m.delete_rows(0, 0, 1))),
         ("bad delete_sheet", Box::new(|m| m.delete_sheet(7))), ("bad rename", Box::new(|m| m.rename_sheet(0, "Sheet2"))), ("bad rename chars", Box::new(|m| m.rename_sheet(0, "a/b"))),
@@ -389,6 +397,7 @@ pub fn drive_undoall() -> Vec<String> {
                 }
             }
         }
+        if after == before { continue; }      // an operation that changed nothing records nothing: there is no entry of its own to undo
         if let Err(e) = m.undo() { fails.push(format!("{name}: undo failed: {e}")); continue; }
         let undone = dump_state(&m);
         for b in well_formed(&m) { fails.push(format!("{name}: after undo the workbook is not well formed: {b}")); }
